@@ -24,9 +24,12 @@ def unit(codec):
 CLIENTS = [("c%d" % i, "10.%d.0.1:%d" % (i, 4000 + i), "Agent/%d.0" % i) for i in range(6)]
 
 
+SALT = [""]
+
+
 def req(sc, c, spec="jar", create=1, ip=None, ua=None):
     name, cip, cua = CLIENTS[c]
-    u = cua if ua is None else ua
+    u = (cua + SALT[0]) if ua is None else ua
     sc.add("req", name, spec, qs(ip or cip), qs(u) if u else "-", create)
 
 
@@ -46,7 +49,8 @@ def fam_C02(seed, n):
         U = unit(codec)
         sc = Script()
         cfg = base_cfg(maxCache=r.choice([-1, -1, 2, 0]), grace=r.choice([0, 2 * U]), idExpiry=r.choice([MAX, MAX, 3 * U]))
-        emit_cfg(sc, codec, cfg)
+        emit_cfg(sc, codec, cfg, None, r)
+        SALT[0] = ".%d" % r.randint(0, 9999)
         npop = r.randint(1, 4)
         minted = 0
         for c in range(npop):
@@ -150,7 +154,8 @@ def fam_C03(seed, n):
         cfg = base_cfg(sessionExpiry=se, maxCache=r.choice([-1, 1, 1, 2, 0]), cacheExpiry=r.choice([MAX, 2 * U, 4 * U]),
                        idExpiry=r.choice([MAX, MAX, MAX, 0, 4 * U]), grace=r.choice([0, 2 * U, MAX]))
         sc = Script()
-        emit_cfg(sc, codec, cfg)
+        emit_cfg(sc, codec, cfg, None, r)
+        SALT[0] = ".%d" % r.randint(0, 9999)
         ns = r.randint(1, 3)
         for c in range(ns):
             req(sc, c)
@@ -213,7 +218,8 @@ def fam_C04(seed, n):
         cfg = base_cfg(idExpiry=MAX if ide_u == MAX else ide_u * U, grace=r.choice([0, U, 5 * U, 50 * U, MAX]),
                        maxCache=r.choice([-1, -1, 0, 1, 2]), sessionExpiry=r.choice([MAX, MAX, 100 * U]))
         sc = Script()
-        emit_cfg(sc, codec, cfg)
+        emit_cfg(sc, codec, cfg, None, r)
+        SALT[0] = ".%d" % r.randint(0, 9999)
         req(sc, 0)
         sc.add("h set k0 s" + hx("keep"))
         if r.random() < 0.3:
@@ -255,7 +261,8 @@ def fam_C05(seed, n):
         cfg = base_cfg(idExpiry=MAX if ide_u == MAX else ide_u * U, grace=gr_u * U, maxCache=r.choice([-1, -1, 0, 1, 2, 3]),
                        sessionExpiry=r.choice([MAX, MAX, 2 * U, 20 * U]))
         sc = Script()
-        emit_cfg(sc, codec, cfg)
+        emit_cfg(sc, codec, cfg, None, r)
+        SALT[0] = ".%d" % r.randint(0, 9999)
         req(sc, 0)
         sc.add("h set k0 s" + hx("live"))
         k = r.randint(1, 5)
@@ -298,7 +305,8 @@ def fam_C06(seed, n):
         cfg = base_cfg(acceptIP=nip, acceptUA=r.choice([0, 0, 1]), maxCache=r.choice([-1, -1, 1, 0]),
                        idExpiry=r.choice([MAX, MAX, MAX, 3 * U]), grace=10 * U)
         sc = Script()
-        emit_cfg(sc, codec, cfg)
+        emit_cfg(sc, codec, cfg, None, r)
+        SALT[0] = ".%d" % r.randint(0, 9999)
         # small octets half of the time, so that "new octet = old octet followed by a digit" (1 -> 17, 10 -> 104) occurs
         octs = [r.randint(1, 250) for _ in range(4)] if r.random() < 0.5 else [r.randint(1, 25) for _ in range(4)]
         port = r.randint(1000, 60000)
@@ -368,7 +376,8 @@ def fam_C07(seed, n):
                        sessionExpiry=4 * U if how == "expiry" else MAX, acceptIP=3 if how == "ip" else 1,
                        acceptUA=0 if how == "ua" else 1, idExpiry=r.choice([MAX, MAX, 2 * U]))
         sc = Script()
-        emit_cfg(sc, codec, cfg)
+        emit_cfg(sc, codec, cfg, None, r)
+        SALT[0] = ".%d" % r.randint(0, 9999)
         req(sc, 0)
         sc.add("h set k0 s" + hx("secret"))
         if r.random() < 0.5:
@@ -423,7 +432,8 @@ def fam_C08(seed, n):
         U = unit(codec)
         cfg = base_cfg(maxCache=r.choice([-1, -1, 0, 1, 2, 3]), grace=r.choice([0, 3 * U, 50 * U]))
         sc = Script()
-        emit_cfg(sc, codec, cfg)
+        emit_cfg(sc, codec, cfg, None, r)
+        SALT[0] = ".%d" % r.randint(0, 9999)
         ns = r.randint(2, 4)
         users = ["u0", "u1", "u2"]
         for c in range(ns):
@@ -468,7 +478,8 @@ def fam_C09(seed, n):
         cfg = base_cfg(maxCache=r.choice([-1, 0, 0, 1, 1, 2]), cacheExpiry=r.choice([MAX, 2 * U]),
                        idExpiry=r.choice([MAX, 0, 3 * U]), grace=r.choice([0, 5 * U]))
         sc = Script()
-        emit_cfg(sc, codec, cfg)
+        emit_cfg(sc, codec, cfg, None, r)
+        SALT[0] = ".%d" % r.randint(0, 9999)
         ns = r.randint(1, 3)
         nv = 0
         for _ in range(r.randint(4, 12)):
@@ -515,7 +526,8 @@ def fam_C10_base(seed, n):
         cfg = base_cfg(maxCache=r.choice([-1, -1, 1, 2, 0]), idExpiry=r.choice([MAX, 2 * U, 0]), grace=r.choice([0, 5 * U, 50 * U]),
                        cacheExpiry=r.choice([MAX, 2 * U]))
         sc = Script()
-        emit_cfg(sc, codec, cfg)
+        emit_cfg(sc, codec, cfg, None, r)
+        SALT[0] = ".%d" % r.randint(0, 9999)
         for c in range(r.randint(1, 2)):
             req(sc, c)
             sc.add("h set k0 s" + hx("ack%d" % c))
@@ -550,7 +562,8 @@ def fam_C12(seed, n):
         cfg = base_cfg(maxCache=r.choice([-1, 0, 1, 1, 2, 2, 3]), cacheExpiry=r.choice([MAX, 100 * U, 2 * U, U]),
                        idExpiry=r.choice([MAX, MAX, 3 * U]), grace=r.choice([0, 2 * U, 50 * U]))
         sc = Script()
-        emit_cfg(sc, codec, cfg)
+        emit_cfg(sc, codec, cfg, None, r)
+        SALT[0] = ".%d" % r.randint(0, 9999)
         ns = r.randint(2, 5)
         for _ in range(r.randint(5, 16)):
             x = r.random()
